@@ -141,6 +141,10 @@ Pypi ==
   \cup {Vec(e, "prefix2", "==" \o T2(b) \o ".*", <<Iv(PrefLo(b, 2, 3), TRUE, PrefHi(b, 2, 3), FALSE)>>, FALSE, FALSE, FALSE) : b \in B2}
   \cup {Vec(e, "notprefix1", "!=" \o T1(b) \o ".*", <<Iv(PrefLo(b, 1, 3), TRUE, PrefHi(b, 1, 3), FALSE)>>, TRUE, FALSE, FALSE) : b \in B1}
   \cup {Vec(e, "notprefix2", "!=" \o T2(b) \o ".*", <<Iv(PrefLo(b, 2, 3), TRUE, PrefHi(b, 2, 3), FALSE)>>, TRUE, FALSE, FALSE) : b \in B2}
+  \* compatible release of a post-release base (PEP 440's own example ~=2.2.post3 is >=2.2.post3, ==2.*): the suffix is
+  \* not a release segment, so the bump is still taken from the release numbers
+  \cup {Vec(e, "compat2-post", "~=" \o T2(b) \o ".post1", <<Iv(V(b[1], b[2], 0, 4), TRUE, PessHi(b, 2, 3), FALSE)>>, FALSE, FALSE, FALSE) : b \in B2}
+  \cup {Vec(e, "compat3-post", "~=" \o T3(b) \o ".post1", <<Iv(V(b[1], b[2], b[3], 4), TRUE, PessHi(b, 3, 3), FALSE)>>, FALSE, FALSE, FALSE) : b \in B3}
   \* the same constructs with an explicit epoch (epoch x wildcard, epoch x compatible release)
   \cup {Vec(e, "epoch-compat3", "~=" \o T3(b), <<Iv(b, TRUE, PessHi(b, 3, 3), FALSE)>>, FALSE, FALSE, FALSE) : b \in E3}
   \cup {Vec(e, "epoch-compat2", "~=" \o T2(b), <<Iv(b, TRUE, PessHi(b, 2, 3), FALSE)>>, FALSE, FALSE, FALSE) : b \in E2}
@@ -163,7 +167,12 @@ BracketsF(e, fam) ==
   \cup {VecF(e, "closed2",   "[" \o T2(b) \o "," \o T2(V(b[1] + 1, b[2], 0, 3)) \o ")", <<Iv(b, TRUE, V(b[1] + 1, b[2], 0, 3), FALSE)>>, FALSE, FALSE, FALSE, fam) : b \in B2}
 Brackets(e) == UNION {BracketsF(e, fam) : fam \in Fams(e)}
 Nuget == Brackets("nuget")
-Maven == Brackets("maven")
+\* maven: a pre-release as upper bound, written with two components while the probes are written with three (1.0-alpha-2
+\* and 1.0.0-alpha-2 are the same version: trailing zeros before a qualifier do not count)
+MavenPreBound ==
+  {VecF("maven", "max-incl-pre2", "(," \o T2(b) \o PreText("maven", 2, "alpha") \o "]", <<Iv(BOT, TRUE, V(b[1], b[2], 0, 2), TRUE)>>, FALSE, FALSE, TRUE, "alpha") : b \in B2}
+  \cup {VecF("maven", "min-incl-pre2", "[" \o T2(b) \o PreText("maven", 2, "alpha") \o ",)", <<Iv(V(b[1], b[2], 0, 2), TRUE, TOP, TRUE)>>, FALSE, TRUE, FALSE, "alpha") : b \in B2}
+Maven == Brackets("maven") \cup MavenPreBound
   \cup {Vec("maven", "union", "(," \o T3(b) \o "],[" \o T3(V(b[1] + 1, b[2], 5, 3)) \o ",)",
             <<Iv(BOT, TRUE, b, TRUE), Iv(V(b[1] + 1, b[2], 5, 3), TRUE, TOP, TRUE)>>, FALSE, TRUE, FALSE) : b \in B3}
 
@@ -203,7 +212,7 @@ ProbesOf(v) ==
       xep == IF e = "pypi"
              THEN {IF b[1] >= 1000 THEN V(b[1] - 1000, b[2], b[3], 3) ELSE V(b[1] + 1000, b[2], b[3], 3) : b \in {b \in bs : Real(b)}}
              ELSE {} IN
-  {p \in core \cup post \cup bpre \cup hpre \cup ipre \cup xep : Real(p) /\ p[4] \in ProbeLevels(e) \cup {1, 2}}
+  {p \in core \cup post \cup bpre \cup hpre \cup ipre \cup xep \cup {b \in bs : Real(b) /\ b[4] \in {1, 2}} : Real(p) /\ p[4] \in ProbeLevels(e) \cup {1, 2}}
 
 -----------------------------------------------------------------------------
 (* generator automaton: one step picks a table row *)
